@@ -47,8 +47,8 @@ func c17MsgCoins(nShapes int) (sdk.Coins, []*big.Int, bool) {
 }
 
 func c17Shape() tunShape {
-	full := vs.Param("full") != 0
-	return tunShape{fullSecond: full, fullOther: full, minShapes: vs.Param("min_shapes")}
+	full := vs.Param("full") // 0: reduced shapes, 1: all coin shapes for both depositors of tunnel 1, 2: all shapes everywhere
+	return tunShape{fullSecond: full >= 2, fullOther: full >= 1, minShapes: vs.Param("min_shapes")}
 }
 
 // VerifC17Deposit: MsgDepositToTunnel by account 0.
